@@ -35,7 +35,15 @@ pub fn parse_indexed_resp(buf: &mut BytesMut) -> Result<IndexedResp, ParseError>
     Ok(IndexedResp::new(resp, data))
 }
 
+// Arrays are parsed recursively. The nesting depth comes from the peer
+// and has to be limited or a packet of "*1\r\n*1\r\n..." overflows the stack.
+const MAX_ARRAY_DEPTH: usize = 128;
+
 pub fn parse_resp(buf: &[u8]) -> Result<(RespIndex, usize), ParseError> {
+    parse_resp_with_depth(buf, 0)
+}
+
+fn parse_resp_with_depth(buf: &[u8], depth: usize) -> Result<(RespIndex, usize), ParseError> {
     if buf.is_empty() {
         return Err(ParseError::NotEnoughData);
     }
@@ -65,7 +73,7 @@ pub fn parse_resp(buf: &[u8]) -> Result<(RespIndex, usize), ParseError> {
             Ok((RespIndex::Error(v), 1 + consumed))
         }
         b'*' => {
-            let (mut v, consumed) = parse_array(next_buf)?;
+            let (mut v, consumed) = parse_array_with_depth(next_buf, depth)?;
             v.advance(1);
             Ok((RespIndex::Arr(v), 1 + consumed))
         }
@@ -76,7 +84,16 @@ pub fn parse_resp(buf: &[u8]) -> Result<(RespIndex, usize), ParseError> {
     }
 }
 
+#[cfg(test)]
 fn parse_array(buf: &[u8]) -> Result<(ArrayIndex, usize), ParseError> {
+    parse_array_with_depth(buf, 0)
+}
+
+fn parse_array_with_depth(buf: &[u8], depth: usize) -> Result<(ArrayIndex, usize), ParseError> {
+    if depth >= MAX_ARRAY_DEPTH {
+        return Err(ParseError::InvalidProtocol);
+    }
+
     let (len, mut consumed) = parse_len(buf)?;
     // -1 is the only negative length in RESP (nil).
     if len < -1 {
@@ -93,7 +110,7 @@ fn parse_array(buf: &[u8]) -> Result<(ArrayIndex, usize), ParseError> {
 
     for _ in 0..array_size {
         let next_buf = buf.get(consumed..).ok_or(ParseError::InvalidProtocol)?;
-        let (mut v, element_consumed) = parse_resp(next_buf)?;
+        let (mut v, element_consumed) = parse_resp_with_depth(next_buf, depth + 1)?;
         v.advance(consumed);
         consumed += element_consumed;
         array.push(v);
